@@ -185,6 +185,7 @@ pub struct LObjs {
     s: Arc<Semaphore>,
 }
 
+#[allow(dead_code)] // the guards are held for their effect, never read
 pub enum Held {
     M(MutexGuard<'static, u32>),
     MO(OwnedMutexGuard<u32>),
